@@ -409,10 +409,13 @@ def jobs(ctx):
             for kind in ('full', 'proc'):
                 d = depth if kind == 'full' or not ctx.quick else 1
                 hists, seen, trans = st.enumerate_histories(
-                    init, kind, d, with_pairs=(d <= 2),
+                    init, kind, d, with_pairs=True,
+                    pair_levels=2 if d <= 2 else 1,
                     proc_issuer=False, gen_kind='full')
+                ts_pairs = ((1, 1), (3, 1)) if ctx.quick else (
+                    (1, 1), (3, 1), (1, 3), (2, 1))
                 for h in hists:
-                    for ts_pair in ((1, 1), (3, 1)):
+                    for ts_pair in ts_pairs:
                         for op_first in ((False, True)
                                          if issuer == 'process'
                                          else (False,)):
